@@ -438,7 +438,8 @@ class Judge:
             rep.violation(sig, "[%s] %s %r: %s" % (path, kind, text, what), {"variant": "dbg", "case": replay_case, "expected": expected, "observed": obs})
 
         if isinstance(obs, dict) and "panic" in obs:
-            viol(R.panic_site_signature(obs["panic"]), "panic: %s" % obs["panic"].get("msg"), "no panic")
+            # panic site (file, message class) x kind of value being read / printed
+            viol("%s:%s" % (R.panic_site_signature(obs["panic"]), KIND_COMPONENT[actual_kind(kind, cls.value)[0]]), "panic: %s" % obs["panic"].get("msg"), "no panic")
             return
         self.bump("%s:%s" % (kind, cls.status))
         if obs is None:
@@ -496,7 +497,7 @@ class Judge:
             return
         eq = obs.get("eq")
         if isinstance(eq, dict) and "panic" in eq:
-            viol(R.panic_site_signature(eq["panic"]), "panic comparing the value with its re-read print %r: %s" % (s, eq["panic"].get("msg")), "true")
+            viol("%s:%s" % (R.panic_site_signature(eq["panic"]), KIND_COMPONENT[actual_kind(kind, pc.value)[0]]), "panic comparing the value with its re-read print %r: %s" % (s, eq["panic"].get("msg")), "true")
             return
         s2 = obs.get("s2")
         if s2 != s:
@@ -845,7 +846,9 @@ def run(rep, tier, seed):
                 rep.count()
                 n_at += 1
                 if "panic" in r:
-                    rep.violation(R.panic_site_signature(r["panic"]), "[@] panic on @%r: %s" % (s, r["panic"].get("msg")), {"variant": "dbg", "case": rcase})
+                    ck = "dur" if kind in ("dtd", "ymd") else kind
+                    comp = KIND_COMPONENT[actual_kind(ck, R.classify(ck, s, zones).value)[0]]
+                    rep.violation("%s:%s" % (R.panic_site_signature(r["panic"]), comp), "[@] panic on @%r: %s" % (s, r["panic"].get("msg")), {"variant": "dbg", "case": rcase})
                     continue
                 if "v" not in r:
                     if "perr" in r and (kind, s) in direct and direct[(kind, s)] is None:
